@@ -14,6 +14,14 @@ def run(res):
     core.std_proof_coverage(res, "C08")
     l1.run(res, "C08", "busstar", "Model.BusStar Model.BusStarOracle", "bs_model", "BS0", ORACLES,
            "BUS/STAR behaviour differs from the model (Model/BusStar.v)")
+    # raw BUS tells "no origin" from a forwarded message by the value 0 in the header word and skips the pipe whose ID equals that
+    # word: the never-echo / reach-everyone rules lean on pipe IDs never being 0 (and being distinct) -- the allocator against Model/PipeId.v
+    cov = dict(res.coverage)
+    from .c13 import run_allocator
+    run_allocator(res, "C08")
+    extra = {k: res.coverage.get(k) for k in ("pipe_id_allocator_cases", "pipe_ids_allocated_and_compared", "pipe_id_lifetime_cases")}
+    res.coverage.update(cov)
+    res.coverage["pipe_id_premise"] = extra
     res.coverage["trusted_base"] = core.COQ_TRUSTED + [
         "hand-written model Model/BusStar.v (+ Model/Chan.v, receive filters of Model/Hops.v) tied by correspondence at quiescence granularity: each stimulus is atomic in the model",
         "Go runtime facts the model assumes: goroutines blocked on one channel are served in blocking order; a select with several ready arms may take any (flagged ambiguous, not compared)",
